@@ -87,6 +87,23 @@ CHECKS = {
              'underflowing reals and in-band null sentinels are not judged; #+1 is read as #1.',
         technique='exhaustive enumeration of all short strings over an alphabet on the real scanner vs grammar recogniser',
         ref='3/C09'),
+    'C10': dict(
+        text='Exhaustive input x history enumeration against the eager reader: ALL digraphs on 1-3 instances with two optional reference attributes each (self loops, cycles: 820 files), '
+             'references in aggregates, selects and complex parts, forward references, chains/cycles/diamonds on 4 instances, sparse and large ids, strings and comments containing '
+             '# ( ) ; = /*, spacing inside "#1 = KW ("; for every file the index, the forward and reverse tables and the dependency set of every instance are compared with an '
+             'independent parse, and a breadth-first search over the set of loaded instances (every loadInstance order, with repetition) compares the STEPwrite text of every loaded '
+             'instance with the eagerly read one; the lazy loader runs on the sanitizer build.',
+        note='Trusted: p21ref (which ids an instance mentions), the eager STEPfile as the serialisation reference. A file the eager reader rejects is judged by C01.',
+        technique='exhaustive enumeration of small reference graphs x BFS over load histories on the real loader + differential and reference-model oracles',
+        ref='3/C10'),
+    'C11': dict(
+        text='Exhaustive program x input enumeration: 7 INVERSE shapes (SET inverse over a single attribute, single-valued inverse, BAG inverse over an aggregate attribute, two inverses onto '
+             'the same entity, onto different entities, inherited inverse, referrer subtypes and look-alike non-referrers); ALL populations with 1-2 targets and 0-3 referrers where every '
+             'reference attribute is target 1, target 2 or unset and aggregates hold every sub-multiset of size <= 2; every target loaded in both orders on the sanitizer build; the inverse '
+             'attributes after loadInstance are compared with the referrers computed from the population (none missing, none extra, none twice).',
+        note='Trusted: the population generator. A single-valued inverse with several referrers may hold any one of them; which member of the inverse union is valid is taken from the loader\'s own rule.',
+        technique='exhaustive enumeration of small populations x load orders on the real loader + reference-model oracle',
+        ref='3/C11'),
     'C12': dict(
         text='Exhaustive configuration enumeration around a reference configuration: for every schema of the generated family and selected (thorough: all) shipped '
              'schemas and each of exp2cxx, exp2python, exppp, schema_scanner, every one-axis deviation over {ASLR off/on, heap shift 0/16/4096/1 MiB via an '
